@@ -144,6 +144,8 @@ def h_history(ctx, role, lvl, ops, n, ack_arrives, link="per-packet", prep=()):
             node.power = False
         elif pr == "listen_off":  # ... or into TX mode
             node.listen = False
+        elif pr == "interrupt_config":  # ... or chose which events drive the IRQ pin (not a change of role)
+            node.interrupt_config(*((False, True, True), (True, False, False), (False, False, False))[ctx.choice("irq_cfg", 3)])
         elif pr == "getters":  # ... or merely read every read-only attribute
             touch_getters(node)
         elif pr == "route_timeout":  # boundary and small values of the time-outs (0 = do not wait at all)
@@ -204,6 +206,7 @@ def jobs(tier):
         out.append(Job("single-call-through-outages", h_history, dict(role="net", lvl=lvl, ops=[op], n=n, ack_arrives=False, link="outage"),
                        cost=40, shards=4))
     for pr, lvl, op, n, ack in ([("getters", 2, op, 25, False) for op in ("write_child", "write_parent", "update", "multicast")] +
+                                [("interrupt_config", 1, op, 10, False) for op in ("update", "write_self", "multicast_level")] +
                                 [(pr, 1, op, 0, False) for pr in ("power_off", "listen_off") for op in
                                  ("write_self", "write_child", "write_parent", "multicast", "multicast_level", "node_address")] +
                                 [(pr, lvl, op, n, ack) for pr in ("route_timeout", "tx_timeout") for lvl, op, n in ((1, "write_other", 0), (2, "write_desc", 25), (2, "write_parent", 0))
@@ -217,6 +220,13 @@ def jobs(tier):
         light = ("multicast", "node_address", "multicast_level", "write_self")
         pairs = [(a, b) for a in light for b in NET_OPS] + [(a, b) for a in NET_OPS if a not in light
                                                              for b in ("node_address", "multicast_level", "multicast")]
+    triples = [("multicast_level", "node_address", "write_parent"), ("node_address", "multicast_level", "write_child"),
+               ("multicast_level", "write_parent", "node_address"), ("multicast_level", "node_address", "multicast")]
+    if tier == "thorough":
+        triples += [("node_address", "node_address", "write_parent"), ("multicast_level", "multicast_level", "write_child"),
+                    ("write_parent", "node_address", "write_parent"), ("multicast", "multicast_level", "write_other")]
+    for t in triples:
+        out.append(Job("three-calls", h_history, dict(role="net", lvl=2, ops=list(t), n=0, ack_arrives=False), cost=120, shards=8))
     for a, b in pairs:
         out.append(Job("two-calls", h_history, dict(role="net", lvl=2, ops=[a, b], n=25, ack_arrives=False), cost=60, shards=4))
     return out
@@ -228,7 +238,7 @@ META = {
                         "0, 1, 3; mesh nodes at levels 1, 2 (update, renew_address without responder, release_address, lookups, "
                         "check_connection, send, write, multicast); the master's update(); every address digit, type, content, "
                         "received frame (10 symbolic bytes) symbolic; one symbolic outcome per transmitted packet; a NETWORK_ACK / "
-                        "lookup answer injected at a symbolic clock look or never; 9 two-call histories; calls made after the application itself powered the radio down / left it in TX mode (write, multicast, node_address, multicast_level) or set route_timeout / tx_timeout to a symbolic 0..12 ms",
+                        "lookup answer injected at a symbolic clock look or never; 9 two-call and 4 three-call histories; calls made after the application itself powered the radio down / left it in TX mode (write, multicast, node_address, multicast_level) or set route_timeout / tx_timeout to a symbolic 0..12 ms",
                "thorough": "levels 0..4, 51 two-call histories of a network node"},
     "outside": ["histories deeper than 2", "renew_address() with responders (co-simulated in C17, which asserts the same "
                 "post-condition)", "timing jitter: the clock tick is a constant 5 ms"],
